@@ -103,3 +103,43 @@ pub fn secret_scalar(upper: &BigUint) -> impl Strategy<Value = Hex> {
 pub fn msg_len(max: usize) -> impl Strategy<Value = usize> {
     prop_oneof![2 => 0..=40usize, 2 => boundary_len(max.min(300)), 1 => 0..=max]
 }
+
+/// 256-bit scalars with an all-zero 64-bit limb *below* a non-zero limb (and a few with zero nibbles / bytes at limb boundaries): loops that
+/// scan a scalar limb by limb or window by window have their shortcuts exactly there. Limbs are drawn from {0, 1, 2^63, 2^64-1, pseudo-random}.
+pub fn zero_limb_scalars() -> Vec<BigUint> {
+    let rnd = |i: u64| u64::from_le_bytes(crate::engine::expand_bytes(0x2e70_11b5 ^ i, 8).try_into().unwrap()) | 1;
+    let mut out = Vec::new();
+    let choices = |i: u64| [0u64, 1, 1 << 63, u64::MAX, rnd(i)];
+    let mut idx = 0u64;
+    for a in 0..5usize {
+        for b in 0..5usize {
+            for c in 0..5usize {
+                for d in 0..5usize {
+                    idx += 1;
+                    let l = [choices(idx)[a], choices(idx + 1000)[b], choices(idx + 2000)[c], choices(idx + 3000)[d]]; // least significant first
+                    let top = match l.iter().rposition(|x| *x != 0) {
+                        Some(t) => t,
+                        None => continue,
+                    };
+                    if !l[..top].iter().any(|x| *x == 0) {
+                        continue;
+                    }
+                    let mut v = BigUint::from(0u32);
+                    for i in (0..4).rev() {
+                        v = (v << 64) + l[i];
+                    }
+                    out.push(v);
+                }
+            }
+        }
+    }
+    // zero runs that straddle or stop just short of a limb boundary
+    for (lo, hi) in [(60u32, 64u32), (56, 72), (64, 124), (1, 64), (64, 127), (128, 191), (4, 192)] {
+        let ones = (BigUint::one() << 256u32) - 1u32;
+        let hole = ((BigUint::one() << (hi - lo)) - 1u32) << lo;
+        out.push(&ones ^ &hole);
+    }
+    out.sort();
+    out.dedup();
+    out
+}
